@@ -1,7 +1,7 @@
 (** C16 — SQLite and in-memory storage are observationally equivalent and persistent.
     The specification (Model/Storage.v) is the documented contract, which the
     in-memory storage implements literally; the SQL tables refine it. *)
-From TC Require Import Model.SqlStore Proofs.SqlP.
+From TC Require Import Model.SqlStore Proofs.SqlP Proofs.SqlWsP.
 
 (** calls on tasks, base version and the operation log commute with the
     abstraction from tables to the specification's state *)
@@ -48,8 +48,33 @@ Proof. exact readonly_refuses_all. Qed.
 Theorem C16_working_set_table_small_scope : forallb ws_table_ok small_ws_tables = true.
 Proof. exact ws_table_small_scope. Qed.
 
+(** The working-set table in general (any table without a row 0, which the
+    statements preserve): the SQL statements refine the specification's
+    normalised vector -- add returns MAX(id)+1 and appends; set inside the vector
+    (INSERT OR REPLACE / DELETE) is the update followed by normalisation, also
+    when the last row goes and the vector shrinks to the largest remaining id;
+    clear gives the empty vector. *)
+Theorem C16_add_to_working_set_refines : forall q u n q',
+  q_add_to_working_set q u = Some (n, q') ->
+  add_to_working_set (absq q) u = (n, absq q') /\ (q_ws q !! 0%nat = None -> q_ws q' !! 0%nat = None).
+Proof. exact add_to_working_set_refines. Qed.
+
+Theorem C16_set_working_set_item_refines : forall q i x q',
+  q_ws q !! 0%nat = None -> (1 <= i)%nat -> (i < length (st_ws (absq q)))%nat ->
+  q_set_working_set_item q i x = Some (tt, q') ->
+  set_working_set_item (absq q) i x = Some (absq q') /\ q_ws q' !! 0%nat = None.
+Proof. exact set_working_set_item_refines. Qed.
+
+Theorem C16_clear_working_set_refines : forall q q',
+  q_clear_working_set q = Some (tt, q') ->
+  clear_working_set (absq q) = absq q' /\ q_ws q' !! 0%nat = None.
+Proof. exact clear_working_set_refines. Qed.
+
 Print Assumptions C16_tasks_and_log_refine.
 Print Assumptions C16_remove_operation_refines.
 Print Assumptions C16_log_stays_sorted.
 Print Assumptions C16_readonly_refuses_all.
 Print Assumptions C16_working_set_table_small_scope.
+Print Assumptions C16_add_to_working_set_refines.
+Print Assumptions C16_set_working_set_item_refines.
+Print Assumptions C16_clear_working_set_refines.
